@@ -90,14 +90,32 @@ Definition is_section_line (line : str) : bool :=
   match line with 91 :: _ => match rev line with 93 :: _ => true | _ => false end | _ => false end.
 Definition cfg_section_names : list (list N) :=
   [[91;112;121;99;97;108;118;101;114;93]; [91;98;117;109;112;118;101;114;93]; [91;116;111;111;108;46;98;117;109;112;118;101;114;93]].
+(* RE_SECTION_HEADER (fix 5f60703): optional blanks, "[", one or more characters other than brackets, quotes and "=", "]", optional blanks,
+   optionally a comment starting with # or ;  -- Some "[name]" when the line is such a section header *)
+Definition header_of (line : str) : option (list N) :=
+  match lstrip ws_chars line with
+  | 91 :: rest =>
+      match sfind [93] rest with
+      | Some j =>
+          let inner := firstn j rest in
+          let after := lstrip ws_chars (skipn (S j) rest) in
+          if (Nat.ltb 0 j) && negb (existsb (fun c => N.eqb c 91 || N.eqb c 34 || N.eqb c 39 || N.eqb c 61) inner)
+             && match after with [] => true | c :: _ => N.eqb c 35 || N.eqb c 59 end
+          then Some (91 :: inner ++ [93]) else None
+      | None => None
+      end
+  | _ => None
+  end.
 Fixpoint self_pattern_go (lines : list (list N)) (in_section : bool) (cv vp : str) : option (list N) :=
   match lines with
   | [] => None
   | line :: t =>
-      if in_section && prefixb s_current_version line then Some (sreplace (strip_q cv) (strip_q vp) line)
-      else if mem_str (strip_ws line) cfg_section_names then self_pattern_go t true cv vp
-      else if is_section_line line then self_pattern_go t false cv vp
-      else self_pattern_go t in_section cv vp
+      let st := strip_ws line in
+      if in_section && prefixb s_current_version st then Some (sreplace (strip_q cv) (strip_q vp) st)
+      else match header_of line with
+           | Some h => self_pattern_go t (mem_str h cfg_section_names) cv vp
+           | None => if is_section_line line then self_pattern_go t false cv vp else self_pattern_go t in_section cv vp
+           end
   end.
 Definition self_pattern (raw_current_version raw_version_pattern cfg_text : str) : option (list N) :=
   self_pattern_go (splitlines cfg_text) false raw_current_version raw_version_pattern.
